@@ -204,8 +204,13 @@ Definition spec_call (w : world) (c : call) : option (list (outcome res * list (
     else None
   | EqOther o => if has_obj w o then Some [ (Val (RBool false), []) ] else None
   | Ppid _ | CreateTime _ | BootTime | ProcIter | NewPopen _ | OneshotEnter _ | OneshotExit _ | AsDict _
-  | SetProbe _ | SetAct _ _ => None
+  | SetProbe _ | SetAct _ _ | Wait _ | IterStart | IterNext _ => None
   end.
+
+(* histories in which no process_iter() generator is resumed while other calls go on
+   (list(process_iter()) = ProcIter is one atomic call and is allowed) *)
+Definition no_next (e : ev) : bool := match e with EC (IterNext _) => false | _ => true end.
+Definition overlap_free (h : list ev) : bool := forallb no_next h.
 
 (* no attempt at all may name PID 0 or a negative PID in os.kill *)
 Definition group_kill (e : sysc * option Z) : bool :=
